@@ -101,9 +101,26 @@ func (w *World) Install() {
 		h.OnceEnter = w.Sched.OnceEnter
 		h.OnceExit = w.Sched.OnceExit
 	}
-	if w.FLObs != nil {
+	if w.FLObs != nil || w.Sched != nil {
 		h.Freelist = func(db *bolt.DB, f fl.Interface) fl.Interface {
-			return fl.VerifObserve(f, func(ev *fl.VerifEvent) { w.FLObs(db, f, ev) })
+			o := fl.VerifObserve(f, func(ev *fl.VerifEvent) {
+				if w.FLObs != nil {
+					w.FLObs(db, f, ev)
+				}
+			})
+			if w.Sched != nil {
+				// scheduling points in front of the coarse freelist operations: harmless while the caller holds
+				// the lock it should hold (the others wait at their lock probe), revealing when it does not
+				if vo, ok := o.(*fl.VerifObserved); ok {
+					vo.Before = func(call string) {
+						switch call {
+						case "AddReadonlyTXID", "RemoveReadonlyTXID", "ReleasePendingPages", "Rollback", "Reload", "NoSyncReload":
+							w.Sched.Yield(db, "fl."+call)
+						}
+					}
+				}
+			}
+			return o
 		}
 	}
 	pick := w.pick
